@@ -33,7 +33,8 @@ def cells(tier):
         for ttl in (1.0, 2.0):
             for off in OFFS:
                 for mk in KINDS:
-                    out.append(dict(kind=kind, ttl=ttl, off=off, mk=mk))
+                    # the retried kind spends ~0.6 s on its first attempt before the expiry matters
+                    out.append(dict(kind=kind, ttl=ttl + (1.0 if mk == "retried" else 0.0), off=off, mk=mk))
         out.append(dict(kind=kind, ttl=None, off=0.0, mk="immediate"))
     return out
 
@@ -81,7 +82,12 @@ def execute(cell):
             p = w.params(ttl=ttl, retries=1 if mk == "retried" else 0,
                          defer_by=0.3 if mk == "rescheduled" else None,
                          next_in=-0.5 if mk == "rescheduled" else None)
+            ns_enq = x.loop._ns
             x.run(w.broker.enqueue(key, "", p))
+            ts_enqueued = p.timestamp
+            # the first run happens noticeably later than the enqueue, so that a retry which
+            # (wrongly) restarted the time-to-live clock is distinguishable
+            loop.run_for(0.3)
             w1 = make_worker(True)
             stop_later({"mem": 0.05, "redis": 0.25, "amqp": 0.05}[kind])
             st, v = x.run(w1.run())
@@ -91,7 +97,16 @@ def execute(cell):
             if len(ents) != 1 or ents[0]["place"] not in ("delayed", "waiting"):
                 viol.append(("setup", f"after the first run the message is in {[e['place'] for e in ents]}"))
                 return loop.handles, viol, {}
-            ts = datetime.fromisoformat(ents[0]["params"]["ts"])
+            # the time-to-live counts from the latest *scheduling*: a retry keeps the clock of its
+            # scheduling running, a reschedule restarts it at the moment of the reschedule
+            if mk == "retried":
+                ts = ts_enqueued
+            else:
+                rq = [r for r in x.log if r[1] == "call" and r[2] == "requeue" and r[7] == 0]
+                ts = ts_enqueued + timedelta(microseconds=(rq[-1][0] - 0) // 1000) - timedelta(microseconds=(ns_enq // 1000))
+            stored_ts = datetime.fromisoformat(ents[0]["params"]["ts"])
+            if stored_ts != ts:
+                viol.append(("ttl-clock", f"after a {mk[:-2]}y the message carries timestamp {stored_ts}, its latest scheduling was at {ts}"))
             entered.clear()
         else:
             nxt = None
@@ -130,10 +145,15 @@ def execute(cell):
         summary = dict(entered=[round((t - (expiry_ns or 0)) / 1e6, 3) for t, _, _ in entered],
                        dead_at=None if first_dead[0] is None else round((first_dead[0] - (expiry_ns or 0)) / 1e6, 3),
                        places=places)
+        resched_ns = [r[0] + CLOCK.offset_ns for r in x.log
+                      if r[1] == "call" and r[2] == "requeue" and r[7] == 0 and r[5]["tried"] == 0 and r[5]["defer_by"] is not None]
         for t, mts, tried in entered:
-            # judged against the timestamp the delivered message carried (a reschedule restarts the clock)
+            # judged against the latest scheduling before this delivery (model, not the stored stamp)
             if ttl is not None:
-                exp = t + round(((mts + timedelta(seconds=ttl)) - CLOCK.now()).total_seconds() * NS) - (t - CLOCK.ns())
+                exp = expiry_ns
+                for rn in resched_ns:
+                    if rn <= t and rn + round(ttl * NS) > exp and rn > expiry_ns - round(ttl * NS):
+                        exp = rn + round(ttl * NS)
                 if t > exp:
                     viol.append(("executed-expired", f"actor entered {(t - exp) / 1e6:.3f} ms after the message had expired"))
         if first_dead[0] is not None and not entered:
